@@ -70,6 +70,18 @@ PROPS = {
             'occurrence times after each restart are computed by the runner, not by echse',
         ],
     },
+    'C03': {
+        'engine': 'simp', 'profile': 'C03', 'level': 'exploration',
+        'rules': ['R-MERGE', 'R-PEEK', 'R-CLONE', 'R-CRASHFREE'],
+        'gopts': {}, 'mopts': {},
+        'quick': {'budget': 45, 'runs': 100000}, 'thorough': {'budget': 600, 'runs': 10000000},
+        'assumptions': [
+            'echse has no concurrent callers: the "schedule" is the sequence of API calls (pop, peek, clone+drain, serialise) issued by one caller; this is a stateful-API check driven by a seeded scheduler, not a concurrency result',
+            'constituents come from the arithmetic rule family (SECONDLY..DAILY with INTERVAL, COUNT/UNTIL, RDATE lists, date and date-time values) whose occurrence lists the runner computes itself',
+            'the order among different UIDs at the same instant is unspecified and not checked',
+        ],
+        'technique': 'seeded call-schedule simulation of a stateful streaming API against a sort+unique reference model (daemon-driven schedules of the same streams are covered by C04/C12)',
+    },
     'C10': {
         'engine': 'simp', 'profile': 'C10', 'level': 'exploration',
         'rules': ['R-CHUNK', 'R-CRASHFREE'],
@@ -407,6 +419,18 @@ def run_check(prop, tier, budget=None, runs=None, seed=None, workers=None, no_mi
         'wall_s': round(wall, 2),
         'violations': len(out_viol),
     }
+    if prop == 'C03':
+        ev['coverage']['rule'] = (
+            'one evaluation = one generated calendar (1-8 events, 0-6 RRULEs and optional RDATE list each, deliberate ties, '
+            'all-day and timed values) merged with echs_evstrm_vmux and driven by a seeded schedule of pop/peek/clone-and-drain/serialise '
+            'calls until three calls past the end; non-trivial = at least two constituent streams or rules and a tie, a clone or more than 64 events; '
+            'distinct = by hash of (calendar, schedule)')
+        ev['coverage']['real_vs_stub'] = {
+            'libechse streams (evmux, evrrul, evical_vevent, evfilt) and parser': 'real',
+            'caller': 'scripted: seeded sequence of API calls',
+            'reference': 'independent: sort+unique over arithmetic occurrence lists',
+        }
+        ev['coverage'].pop('simulated_seconds', None)
     if prop == 'C10':
         ev['coverage']['rule'] = (
             'one evaluation = one input byte string (generated calendar, repository sample file, or a mutation/truncation) '
